@@ -233,10 +233,10 @@ Proof. destruct l; cbn; auto. Qed.
 
 (* ---------- scanning a stream computes E ---------- *)
 Definition scan_at (d : nat) : Prop :=
-  forall ts pre p below ne,
+  forall ts rest pre p below ne,
     forallb okt ts = true -> inv ne d -> S (List.length below) + d < max_level ->
     exists n pre', somes pre' = somes pre ++ flat_map (E d ne) ts /\
-                   forall f, runM (n + f) (st pre ts p below ne) = runM f (st pre' [] p below ne).
+                   forall f, runM (n + f) (st pre (ts ++ rest) p below ne) = runM f (st pre' rest p below ne).
 
 Lemma okt_inv t : okt t = true -> tx t = true /\ (is_id t = true -> is_txt "defined" t = false).
 Proof.
@@ -246,24 +246,24 @@ Qed.
 
 Lemma scan_step d : (forall d', d = S d' -> scan_at d') -> scan_at d.
 Proof.
-  intros IHd ts. induction ts as [|t r IHr]; intros pre p below ne Hok Hinv Hlev.
+  intros IHd ts. induction ts as [|t r IHr]; intros rest pre p below ne Hok Hinv Hlev.
   - exists 0, pre. cbn [flat_map]. rewrite app_nil_r. split; [reflexivity|]. intros f. reflexivity.
   - cbn [forallb] in Hok. apply andb_true_iff in Hok. destruct Hok as [Hot Hor].
     destruct (okt_inv t Hot) as [Hx Hdef].
-    cbn [flat_map]. rewrite E_eq.
+    cbn [flat_map app]. rewrite E_eq.
     destruct (is_id t) eqn:Hid; cbn [negb].
-    2:{ destruct (IHr (pre ++ [Some t]) p below ne Hor Hinv Hlev) as (n & pre' & Hs & Hrun).
+    2:{ destruct (IHr rest (pre ++ [Some t]) p below ne Hor Hinv Hlev) as (n & pre' & Hs & Hrun).
         exists (S n), pre'. split.
         - rewrite Hs, somes_app. cbn [somes]. now rewrite <- app_assoc.
         - intros f. cbn [plus]. rewrite R_nonid by assumption. apply Hrun. }
     specialize (Hdef eq_refl).
     destruct (negb (tx t) || in_noexp (tt t) ne) eqn:Hh.
-    { destruct (IHr (pre ++ [Some (paint t)]) p below ne Hor Hinv Hlev) as (n & pre' & Hs & Hrun).
+    { destruct (IHr rest (pre ++ [Some (paint t)]) p below ne Hor Hinv Hlev) as (n & pre' & Hs & Hrun).
       exists (S n), pre'. split.
       - rewrite Hs, somes_app. cbn [somes]. now rewrite <- app_assoc.
       - intros f. cbn [plus]. rewrite R_hidden by assumption. apply Hrun. }
     destruct (get_macro tb (tt t)) as [m|] eqn:Hm.
-    2:{ destruct (IHr (pre ++ [Some t]) p below ne Hor Hinv Hlev) as (n & pre' & Hs & Hrun).
+    2:{ destruct (IHr rest (pre ++ [Some t]) p below ne Hor Hinv Hlev) as (n & pre' & Hs & Hrun).
         exists (S n), pre'. split.
         - rewrite Hs, somes_app. cbn [somes]. now rewrite <- app_assoc.
         - intros f. cbn [plus]. rewrite R_nomacro by assumption. apply Hrun. }
@@ -274,24 +274,161 @@ Proof.
     (* push the replacement list, scan it with budget d', pop, go on with r *)
     assert (Hinv' : inv (Some (m_name m) :: ne) d').
     { rewrite Hname. apply inv_push; [assumption|assumption|]. eapply get_macro_In, Hm. }
-    destruct (IHd d' eq_refl (set_w_hd (tw t) (m_repl m)) [] false (top_of (pre ++ [None]) r p :: below)
+    destruct (IHd d' eq_refl (set_w_hd (tw t) (m_repl m)) [] [] false (top_of (pre ++ [None]) (r ++ rest) p :: below)
                   (Some (m_name m) :: ne) (okt_set_w_hd _ _ Hbody) Hinv') as (n1 & pre1 & Hs1 & Hrun1).
     { cbn [List.length]. lia. }
-    destruct (IHr (map Some (somes pre ++ somes pre1)) p below ne Hor Hinv Hlev) as (n2 & pre' & Hs2 & Hrun2).
+    rewrite app_nil_r in Hrun1.
+    destruct (IHr rest (map Some (somes pre ++ somes pre1)) p below ne Hor Hinv Hlev) as (n2 & pre' & Hs2 & Hrun2).
     exists (S (n1 + n2)), pre'. split.
     + rewrite Hs2, somes_map_Some, Hs1. cbn [somes app]. now rewrite <- app_assoc.
     + intros f. replace (S (n1 + n2) + f) with (S (n1 + (n2 + f))) by lia.
-      rewrite (R_macro _ pre t r p below ne m); try assumption.
+      rewrite (R_macro _ pre t (r ++ rest) p below ne m); try assumption.
       2:{ rewrite Hx. cbn [negb orb]. exact Hh. }
       2:{ lia. }
-      rewrite Hrun1. rewrite (R_norm _ _ _ (norm_pop pre1 pre r p below ne _)). apply Hrun2.
+      rewrite Hrun1. rewrite (R_norm _ _ _ (norm_pop pre1 pre (r ++ rest) p below ne _)). apply Hrun2.
 Qed.
 
 Lemma scan_all d : scan_at d.
 Proof. induction d as [|d IH]; apply scan_step; intros d' H; [discriminate|]. injection H as <-. exact IH. Qed.
 
+(* ---------- `defined X` and `defined ( X )` in the scanned list ---------- *)
+Lemma peek_down_top pre x r p below :
+  peek_down (top_of pre (x :: r) p :: below) = Some x.
+Proof.
+  cbn [peek_down]. rewrite eol_cons. unfold top_of. cbn [h_toks h_pos map]. now rewrite nth_error_mid.
+Qed.
+
+Lemma L_repl y pre x r p below ne :
+  replace_tok false y (st pre (x :: r) p below ne) = XVal Datatypes.tt (st (pre ++ [Some y]) r p below ne).
+Proof.
+  unfold replace_tok. rewrite norm_live. unfold st. cbn [x_stack x_noexp]. rewrite top_snoc.
+  unfold top_of. cbn [h_toks h_pos h_pre map].
+  replace (Nat.ltb (List.length pre) (List.length (pre ++ Some x :: map Some r))) with true.
+  2:{ symmetry. apply Nat.ltb_lt. rewrite app_length. cbn. lia. }
+  now rewrite set_nth_app.
+Qed.
+
+Lemma R_defined1 f pre t x r p below ne :
+  is_id t = true -> is_txt "defined" t = true -> is_txt "(" x = false -> is_id x = true ->
+  runM (S f) (st pre (t :: x :: r) p below ne)
+  = runM f (st ((pre ++ [None]) ++ [Some (defined_tok tb x)]) r p below ne).
+Proof.
+  intros H Hd Hp Hx. cbn [run]. rewrite L_peek, H. cbn [negb]. rewrite L_cons, Hd.
+  unfold do_defined. unfold st at 1. cbn [x_stack]. rewrite peek_down_top, Hp, Hx. cbn [negb].
+  fold (st (pre ++ [None]) (x :: r) p below ne). now rewrite L_repl.
+Qed.
+
+Lemma R_defined2 f pre t x id c r p below ne :
+  is_id t = true -> is_txt "defined" t = true -> is_txt "(" x = true -> is_txt ")" c = true -> is_id id = true ->
+  runM (S f) (st pre (t :: x :: id :: c :: r) p below ne)
+  = runM f (st ((((pre ++ [None]) ++ [None]) ++ [None]) ++ [Some (defined_tok tb id)]) r p below ne).
+Proof.
+  intros H Hd Hp Hc Hi. cbn [run]. rewrite L_peek, H. cbn [negb]. rewrite L_cons, Hd.
+  unfold do_defined. unfold st at 1. cbn [x_stack]. rewrite peek_down_top, Hp.
+  fold (st (pre ++ [None]) (x :: id :: c :: r) p below ne). rewrite !L_cons.
+  unfold st at 1. cbn [x_stack]. rewrite peek_down_top, Hc, Hi. cbn [negb].
+  fold (st (((pre ++ [None]) ++ [None]) ++ [None]) (c :: r) p below ne). now rewrite L_repl.
+Qed.
+
+(* the scanned list as the implementation reads it: `defined` forms give a number, every
+   other token goes through E *)
+Fixpoint EI (d : nat) (ne : list (option string)) (ts : list tok) : list tok :=
+  match ts with
+  | [] => []
+  | t :: r =>
+      if is_id t && is_txt "defined" t then
+        match r with
+        | x :: r1 =>
+            if is_txt "(" x then
+              match r1 with
+              | id :: _ :: r2 => defined_tok tb id :: EI d ne r2
+              | _ => []
+              end
+            else defined_tok tb x :: EI d ne r1
+        | [] => []
+        end
+      else E d ne t ++ EI d ne r
+  end.
+
+(* well-formed: `defined` is followed by an identifier or by ( identifier ); other tokens are lexer-made *)
+Fixpoint wfd (ts : list tok) : bool :=
+  match ts with
+  | [] => true
+  | t :: r =>
+      if is_id t && is_txt "defined" t then
+        match r with
+        | x :: r1 =>
+            if is_txt "(" x then
+              match r1 with
+              | id :: c :: r2 => is_id id && is_txt ")" c && wfd r2
+              | _ => false
+              end
+            else is_id x && wfd r1
+        | [] => false
+        end
+      else tx t && wfd r
+  end.
+
+Lemma scan_items d : forall n0 ts rest pre p below ne,
+  List.length ts <= n0 -> wfd ts = true -> inv ne d -> S (List.length below) + d < max_level ->
+  exists n pre', somes pre' = somes pre ++ EI d ne ts /\
+                 forall f, runM (n + f) (st pre (ts ++ rest) p below ne) = runM f (st pre' rest p below ne).
+Proof.
+  induction n0 as [|n0 IH]; intros ts rest pre p below ne Hlen Hwf Hinv Hlev.
+  - destruct ts; [|cbn in Hlen; lia]. exists 0, pre. cbn. rewrite app_nil_r. split; [reflexivity|]. reflexivity.
+  - destruct ts as [|t r].
+    { exists 0, pre. cbn. rewrite app_nil_r. split; [reflexivity|]. reflexivity. }
+    cbn [wfd EI] in *.
+    destruct (is_id t && is_txt "defined" t) eqn:Hd.
+    + apply andb_true_iff in Hd. destruct Hd as [Hid Hdef].
+      destruct r as [|x r1]; [discriminate|].
+      destruct (is_txt "(" x) eqn:Hp.
+      * destruct r1 as [|id [|c r2]]; try discriminate.
+        apply andb_true_iff in Hwf. destruct Hwf as [Hwf Hw2]. apply andb_true_iff in Hwf. destruct Hwf as [Hi Hc].
+        destruct (IH r2 rest ((((pre ++ [None]) ++ [None]) ++ [None]) ++ [Some (defined_tok tb id)]) p below ne)
+          as (n & pre' & Hs & Hrun); try assumption.
+        { cbn in Hlen. lia. }
+        exists (S n), pre'. split.
+        -- rewrite Hs, !somes_app. cbn [somes]. rewrite !app_nil_r. now rewrite <- app_assoc.
+        -- intros f. cbn [plus app]. rewrite R_defined2 by assumption. apply Hrun.
+      * apply andb_true_iff in Hwf. destruct Hwf as [Hx Hw1].
+        destruct (IH r1 rest ((pre ++ [None]) ++ [Some (defined_tok tb x)]) p below ne)
+          as (n & pre' & Hs & Hrun); try assumption.
+        { cbn in Hlen. lia. }
+        exists (S n), pre'. split.
+        -- rewrite Hs, !somes_app. cbn [somes]. rewrite !app_nil_r. now rewrite <- app_assoc.
+        -- intros f. cbn [plus app]. rewrite R_defined1 by assumption. apply Hrun.
+    + apply andb_true_iff in Hwf. destruct Hwf as [Hx Hwr].
+      assert (Hok : forallb okt [t] = true).
+      { cbn [forallb]. unfold okt. rewrite Hx. unfold is_txt in Hd. rewrite Hd. reflexivity. }
+      destruct (scan_all d [t] (r ++ rest) pre p below ne Hok Hinv Hlev) as (n1 & pre1 & Hs1 & Hrun1).
+      destruct (IH r rest pre1 p below ne) as (n2 & pre' & Hs2 & Hrun2); try assumption.
+      { cbn in Hlen. lia. }
+      exists (n1 + n2), pre'. split.
+      * rewrite Hs2, Hs1. cbn [flat_map]. rewrite app_nil_r. now rewrite <- app_assoc.
+      * intros f. rewrite <- Nat.add_assoc. cbn [app] in Hrun1 |- *. rewrite Hrun1. apply Hrun2.
+Qed.
+
 (* ---------- MacroExpander(platform).expand(tokens) ---------- *)
 Definition E_all (l : list tok) : list tok := flat_map (E (List.length names) [None]) l.
+Definition EI_all (l : list tok) : list tok := EI (List.length names) [None] l.
+
+Theorem expand_objlike_defined l :
+  wfd l = true -> S (List.length names) < max_level ->
+  exists n, forall fuel, n <= fuel ->
+    expand lead cat_fix str_white resub_fix None false va_fix va_whole max_level tb fuel l = Ok (EI_all l).
+Proof.
+  intros Hok Hlev.
+  destruct (scan_items (List.length names) (List.length l) l [] [] false [] [None] (le_n _) Hok) as (n & pre' & Hs & Hrun).
+  { repeat split; cbn [somes]; [constructor|intros x []|lia]. }
+  { cbn [List.length]. lia. }
+  rewrite app_nil_r in Hrun.
+  exists (S n). intros fuel Hf. unfold expand. destruct l as [|t r]; [reflexivity|].
+  replace (Nat.leb max_level 0) with false by (symmetry; apply Nat.leb_gt; lia).
+  replace fuel with (n + S (fuel - S n)) by lia.
+  change (mkX [mkH (map Some (t :: r)) 0 false] [None]) with (st [] (t :: r) false [] [None]).
+  rewrite Hrun, R_end. unfold st, top_of. cbn [x_stack h_toks]. rewrite app_nil_r, Hs. reflexivity.
+Qed.
 
 Theorem expand_objlike l :
   forallb okt l = true -> S (List.length names) < max_level ->
@@ -299,9 +436,10 @@ Theorem expand_objlike l :
     expand lead cat_fix str_white resub_fix None false va_fix va_whole max_level tb fuel l = Ok (E_all l).
 Proof.
   intros Hok Hlev.
-  destruct (scan_all (List.length names) l [] false [] [None] Hok) as (n & pre' & Hs & Hrun).
+  destruct (scan_all (List.length names) l [] [] false [] [None] Hok) as (n & pre' & Hs & Hrun).
   { repeat split; cbn [somes]; [constructor|intros x []|lia]. }
   { cbn [List.length]. lia. }
+  rewrite app_nil_r in Hrun.
   exists (S n). intros fuel Hf. unfold expand. destruct l as [|t r]; [reflexivity|].
   replace (Nat.leb max_level 0) with false by (symmetry; apply Nat.leb_gt; lia).
   replace fuel with (n + S (fuel - S n)) by lia.
